@@ -84,7 +84,8 @@ Definition dec_op (l : list N) : option (op * list N) :=
   match l with
   | [] => None
   | tag :: t =>
-    if tag =? 0 then match dec_pkt_b t with Some (p, r) => Some (OSend p, r) | None => None end
+    (* 18 = the same packet handed to checked_send (compile-time-checked entry point): the same operation *)
+    if (tag =? 0) || (tag =? 18) then match dec_pkt_b t with Some (p, r) => Some (OSend p, r) | None => None end
     else if tag =? 1 then
       match take_lp t with
       | Some (bytes, prtag :: r) =>
